@@ -1757,4 +1757,119 @@ theorem loadArena_accepts (ps : List Payload) : (loadArena ps).isSome = accepts 
     | none => simp
     | some root => simpa using loadList_accepts ps [root]
 
+
+/-! ## Part F: containers shared between a payload list and the tree loaded from it -/
+
+theorem valueObj_isPay (p : List Nat) (v : Option Raw) : ∀ o ∈ valueObj p v, o.isPay = true := by
+  intro o ho
+  unfold valueObj at ho
+  split at ho
+  · simp at ho; subst ho; rfl
+  · simp at ho
+
+mutual
+theorem payObjs_isPay : ∀ (q : Payload) (p : List Nat), ∀ o ∈ payObjs q p, o.isPay = true
+  | .mk _ _ _ _ ty c m v, p => by
+    intro o ho
+    simp only [payObjs, List.mem_append] at ho
+    rcases ho with (((h | h) | h) | h) | h
+    · split at h <;> simp at h; subst h; rfl
+    · split at h <;> simp at h; subst h; rfl
+    · exact valueObj_isPay p v o h
+    · exact payObjsTy_isPay ty p o h
+    · exact payObjsMeta_isPay m p o h
+theorem payObjsList_isPay : ∀ (qs : List Payload) (p : List Nat) (i : Nat), ∀ o ∈ payObjsList qs p i, o.isPay = true
+  | [], _, _ => by simp [payObjsList]
+  | q :: qs, p, i => by
+    intro o ho
+    simp only [payObjsList, List.mem_append] at ho
+    rcases ho with h | h
+    · exact payObjs_isPay q _ o h
+    · exact payObjsList_isPay qs p (i + 1) o h
+theorem payObjsTy_isPay : ∀ (ty : Option (List Payload)) (p : List Nat), ∀ o ∈ payObjsTy ty p, o.isPay = true
+  | none, _ => by simp [payObjsTy]
+  | some ps, p => by intro o ho; simp only [payObjsTy] at ho; exact payObjsList_isPay ps _ 0 o ho
+theorem payObjsMeta_isPay : ∀ (m : Option (List PMeta)) (p : List Nat), ∀ o ∈ payObjsMeta m p, o.isPay = true
+  | none, _ => by simp [payObjsMeta]
+  | some l, p => by intro o ho; simp only [payObjsMeta] at ho; exact payObjsMetaL_isPay l p 1 o ho
+theorem payObjsMetaL_isPay : ∀ (l : List PMeta) (p : List Nat) (e : Nat), ∀ o ∈ payObjsMetaL l p e, o.isPay = true
+  | [], _, _ => by simp [payObjsMetaL]
+  | .raw k r :: es, p, e => by
+    intro o ho
+    simp only [payObjsMetaL, List.mem_append] at ho
+    rcases ho with h | h
+    · split at h <;> simp at h; subst h; rfl
+    · exact payObjsMetaL_isPay es p (e + 1) o h
+  | .expr k ps :: es, p, e => by
+    intro o ho
+    simp only [payObjsMetaL, List.mem_append] at ho
+    rcases ho with h | h
+    · exact payObjsList_isPay ps _ 0 o h
+    · exact payObjsMetaL_isPay es p (e + 1) o h
+end
+
+/- when `_load` copies the comments and builds the meta dict, and no raw value is a list, every container a loaded
+   node points at was made by `_load` -/
+mutual
+theorem loadRefs_made (pol : SharePolicy) (hc : pol.loadCopiesComments = true) (hm : pol.loadBuildsMetaDict = true) :
+    ∀ (q : Payload) (p : List Nat), noArr q = true → ∀ o ∈ loadRefs pol q p, o.isPay = false
+  | .mk _ _ _ _ ty c m v, p => by
+    intro hn o ho
+    simp only [noArr, Bool.and_eq_true] at hn
+    simp only [loadRefs, hc, hm, if_true, List.mem_append] at ho
+    rcases ho with (((h | h) | h) | h) | h
+    · split at h <;> simp at h; subst h; rfl
+    · split at h <;> simp at h; subst h; rfl
+    · exfalso
+      unfold valueObj at h
+      split at h
+      · simp at hn
+      · simp at h
+    · exact loadRefsTy_made pol hc hm ty p hn.1.2 o h
+    · exact loadRefsMeta_made pol hc hm m p hn.2 o h
+theorem loadRefsList_made (pol : SharePolicy) (hc : pol.loadCopiesComments = true) (hm : pol.loadBuildsMetaDict = true) :
+    ∀ (qs : List Payload) (p : List Nat) (i : Nat), noArrList qs = true → ∀ o ∈ loadRefsList pol qs p i, o.isPay = false
+  | [], _, _ => by simp [loadRefsList]
+  | q :: qs, p, i => by
+    intro hn o ho
+    simp only [noArrList, Bool.and_eq_true] at hn
+    simp only [loadRefsList, List.mem_append] at ho
+    rcases ho with h | h
+    · exact loadRefs_made pol hc hm q _ hn.1 o h
+    · exact loadRefsList_made pol hc hm qs p (i + 1) hn.2 o h
+theorem loadRefsTy_made (pol : SharePolicy) (hc : pol.loadCopiesComments = true) (hm : pol.loadBuildsMetaDict = true) :
+    ∀ (ty : Option (List Payload)) (p : List Nat), noArrTy ty = true → ∀ o ∈ loadRefsTy pol ty p, o.isPay = false
+  | none, _ => by simp [loadRefsTy]
+  | some ps, p => by
+    intro hn o ho
+    simp only [noArrTy] at hn
+    simp only [loadRefsTy] at ho
+    exact loadRefsList_made pol hc hm ps _ 0 hn o ho
+theorem loadRefsMeta_made (pol : SharePolicy) (hc : pol.loadCopiesComments = true) (hm : pol.loadBuildsMetaDict = true) :
+    ∀ (m : Option (List PMeta)) (p : List Nat), noArrMeta m = true → ∀ o ∈ loadRefsMeta pol m p, o.isPay = false
+  | none, _ => by simp [loadRefsMeta]
+  | some l, p => by
+    intro hn o ho
+    simp only [noArrMeta] at hn
+    simp only [loadRefsMeta] at ho
+    exact loadRefsMetaL_made pol hc hm l p 1 hn o ho
+theorem loadRefsMetaL_made (pol : SharePolicy) (hc : pol.loadCopiesComments = true) (hm : pol.loadBuildsMetaDict = true) :
+    ∀ (l : List PMeta) (p : List Nat) (e : Nat), noArrMetaL l = true → ∀ o ∈ loadRefsMetaL pol l p e, o.isPay = false
+  | [], _, _ => by simp [loadRefsMetaL]
+  | .raw k r :: es, p, e => by
+    intro hn o ho
+    simp only [noArrMetaL, Bool.and_eq_true, Bool.not_eq_true'] at hn
+    simp only [loadRefsMetaL, hn.1, List.mem_append] at ho
+    rcases ho with h | h
+    · simp at h
+    · exact loadRefsMetaL_made pol hc hm es p (e + 1) hn.2 o h
+  | .expr k ps :: es, p, e => by
+    intro hn o ho
+    simp only [noArrMetaL, Bool.and_eq_true] at hn
+    simp only [loadRefsMetaL, List.mem_append] at ho
+    rcases ho with h | h
+    · exact loadRefsList_made pol hc hm ps _ 0 hn.1 o h
+    · exact loadRefsMetaL_made pol hc hm es p (e + 1) hn.2 o h
+end
+
 end SqlglotModel.Serde
